@@ -155,6 +155,7 @@ impl Verify for Frame {
             sf.verify()
                 .map_err(|e| e.within(&format!("subframe[{ch}]")))?;
         }
+        Self::verify_subframe_shapes(self.header(), self.subframes())?;
         if let Some(buf) = self.precomputed_bitstream() {
             let mut dest = MemSink::<u8>::with_capacity(self.count_bits());
             self.write(&mut dest).map_err(|_| {
